@@ -58,6 +58,12 @@ def main():
                 rc, o = sh("%s/check %s --tier %s" % (VERIF, c, tier), env=env, timeout=3600)
                 sigs = sorted(set(re.findall(r"sig=(\S+)", o)))
                 res[c] = dict(detected="VIOLATION property=%s" % c in o, rc=rc, sigs=sigs[:6], summary=[l for l in o.splitlines() if " %s:" % tier in l][-1:] )
+                if res[c]["detected"] and os.environ.get("SAVE_REGRESS"):
+                    import glob
+                    os.makedirs(os.path.join(VERIF, "regress", c), exist_ok=True)
+                    for f in glob.glob(os.path.join(wt, "_replays", c, "*.bin"))[:2]:
+                        base = os.path.basename(f).rsplit("-", 1)[0]
+                        shutil.copyfile(f, os.path.join(VERIF, "regress", c, "%s-seed%s.%s-%s" % (base, pid, n, os.path.basename(f).rsplit("-", 1)[1])))
             rec["checks"] = res
             m = {}
             try: m = json.load(open(meta))
